@@ -540,6 +540,9 @@ func runC01(c *Ctx) {
 				if _, _, ok := handlerIndexOf(call.Common().Value, handlersF); ok {
 					has = true
 				}
+				if handlerIndexValue(call.Common().Value, handlersF) != nil {
+					has = true // the direction is a parameter of a helper shared by both directions
+				}
 			}
 		})
 		if has {
@@ -556,6 +559,12 @@ func runC01(c *Ctx) {
 			}
 			k, _, ok := handlerIndexOf(call.Common().Value, handlersF)
 			if !ok {
+				// fire(slot, ready, flag, which, unset): judged once per call site, with the constants (and the removal
+				// function) the site passes
+				if iv := handlerIndexValue(call.Common().Value, handlersF); iv != nil {
+					pollHandlerCalls++
+					checkParamDispatch(c, p, e, pollFn, in, iv, eventsF, readFlag, writeFlag, delRead, delWrite)
+				}
 				return
 			}
 			pollHandlerCalls++
@@ -659,6 +668,9 @@ func runC01(c *Ctx) {
 				if x, set, ok := bitTest(l, eventsF); ok && set && isConstInt(x, flag) {
 					guarded = true
 				}
+			}
+			if !guarded {
+				guarded = sitesTestBit(p, fn, eventsF, flag)
 			}
 			c.check(guarded, fn, "cancel "+dname+" guard", in.Pos(), "continuation invoked only while the "+dname+" interest is registered", "the "+dname+" continuation is invoked without testing that the interest is registered: cancelling an idle object calls a stale (or nil) handler, completing an operation twice")
 			var del ssa.Instruction
@@ -849,6 +861,9 @@ func runC01(c *Ctx) {
 						}
 						if tested && stale {
 							bad, badPos = "a handler is completed under an interest mask that was read before an earlier handler (and the user's callback) ran", in.Pos()
+						}
+						if !tested && sitesTestBit(p, fn, eventsF, flag) {
+							tested = true // the guard was moved to every caller ("must only be called while armed")
 						}
 						if !tested {
 							bad, badPos = "a handler is completed on a path that did not test the interest bit of its own direction", in.Pos()
@@ -1390,11 +1405,11 @@ func checkHangupFolding(c *Ctx, pollFn *ssa.Function, readFlag, writeFlag int64)
 		if !ok || !isDynamicFuncCall(call) {
 			return
 		}
-		if _, _, ok := handlerIndexOf(call.Common().Value, handlersF); !ok {
+		if _, _, ok := handlerIndexOf(call.Common().Value, handlersF); !ok && handlerIndexValue(call.Common().Value, handlersF) == nil {
 			return
 		}
 		for _, l := range guardsOf(in.Block()) {
-			_, x, _, isCmp := l.cmp()
+			_, x, y0, isCmp := l.cmp()
 			if !isCmp {
 				continue
 			}
@@ -1402,7 +1417,12 @@ func checkHangupFolding(c *Ctx, pollFn *ssa.Function, readFlag, writeFlag int64)
 			var consts []int64
 			loadsInTree(x, eventsF, 0, &loads, &consts)
 			if len(loads) == 0 {
-				continue
+				// the AND tree is the other operand (the mask compared with is a parameter, which sorts first)
+				loadsInTree(y0, eventsF, 0, &loads, &consts)
+				if len(loads) == 0 {
+					continue
+				}
+				x = y0
 			}
 			// kernel operand: leaves of the AND tree deriving from Event.Mask
 			var kernelOps []ssa.Value
@@ -1611,4 +1631,109 @@ func clearsBitCall(call ssa.CallInstruction, eventsF *types.Var, flag int64) boo
 		}
 	}
 	return false
+}
+
+// sitesTestBit: fn is an unexported function (or one that is new) with at least one call site, and every call site is
+// reached only under a test that the given interest bit of Slot.Events is set.
+func sitesTestBit(p *Prog, fn *ssa.Function, eventsF *types.Var, flag int64) bool {
+	if fn.Parent() != nil || fn.Object() == nil || (fn.Object().Exported() && knownOnPinnedTree(fn)) {
+		return false
+	}
+	sites := p.callers(fn)
+	if len(sites) == 0 {
+		return false
+	}
+	for _, site := range sites {
+		ok := false
+		for _, l := range guardsOf(site.(ssa.Instruction).Block()) {
+			if x, set, isBT := bitTest(l, eventsF); isBT && set && isConstInt(x, flag) {
+				ok = true
+			}
+		}
+		if !ok {
+			return false
+		}
+	}
+	return true
+}
+
+// checkParamDispatch: R3 for a dispatching helper whose direction (handler index, interest flag, removal operation) is
+// given by parameters: every call site must pass a consistent triple, the guard tests kernel-mask & slot.Events & flag
+// with slot.Events read inside the helper (hence after any handler an earlier call ran), and the removal runs before
+// the handler.
+func checkParamDispatch(c *Ctx, p *Prog, e *e2, fn *ssa.Function, in ssa.Instruction, iv ssa.Value, eventsF *types.Var, readFlag, writeFlag int64, delRead, delWrite []*types.Func) {
+	idxOf := func(v ssa.Value) int {
+		for i, q := range fn.Params {
+			if stripConv(v) == ssa.Value(q) {
+				return i
+			}
+		}
+		return -1
+	}
+	whichIdx := idxOf(iv)
+	// the guard: a literal over slot.Events with a parameter as the mask
+	flagIdx := -1
+	var guard *Lit
+	for _, l := range guardsOf(in.Block()) {
+		l := l
+		if x, set, ok := bitTest(l, eventsF); ok && set {
+			if i := idxOf(x); i >= 0 {
+				flagIdx, guard = i, &l
+			}
+		}
+	}
+	// the removal: a call, dominating the handler, of a function-valued parameter (or of a Del* directly under a test of
+	// the direction)
+	unsetIdx := -1
+	eachInstr(fn, func(x ssa.Instruction) {
+		cc, ok := x.(ssa.CallInstruction)
+		if !ok || !isDynamicFuncCall(cc) || !dominatesInstr(x, in) {
+			return
+		}
+		if i := idxOf(cc.Common().Value); i >= 0 {
+			unsetIdx = i
+		}
+	})
+	sites := p.callers(fn)
+	good := whichIdx >= 0 && flagIdx >= 0 && unsetIdx >= 0 && guard != nil && len(sites) > 0
+	why := "the dispatching helper does not test kernel mask & slot.Events & flag, remove the interest and then run the handler, all for the direction its parameters name"
+	if good {
+		// freshness: slot.Events is loaded inside the helper
+		if len(eventsLoadsIn(guard.Cond, eventsF, 0)) == 0 {
+			good, why = false, "the interest mask tested by the dispatching helper is not read inside it: a handler run by an earlier call may have changed it"
+		}
+	}
+	for _, site := range sites {
+		if !good {
+			break
+		}
+		a := site.Common().Args
+		k, okK := constInt(a[whichIdx])
+		fl, okF := constInt(a[flagIdx])
+		var un *types.Func
+		switch f := stripConv(a[unsetIdx]).(type) {
+		case *ssa.Function:
+			un, _ = f.Object().(*types.Func)
+			if un == nil && f.Synthetic != "" {
+				// a thunk of a method expression: the method it forwards to
+				eachInstr(f, func(x ssa.Instruction) {
+					if cc, ok := x.(ssa.CallInstruction); ok && cc.Common().StaticCallee() != nil {
+						un, _ = cc.Common().StaticCallee().Object().(*types.Func)
+					}
+				})
+			}
+		case *ssa.MakeClosure:
+			if bf, ok := f.Fn.(*ssa.Function); ok {
+				un, _ = bf.Object().(*types.Func)
+			}
+		}
+		wantFlag, dels := readFlag, delRead
+		if okK && k == e.writeEv {
+			wantFlag, dels = writeFlag, delWrite
+		}
+		if !okK || !okF || fl != wantFlag || un == nil || !isOneOf(un, dels) {
+			good, why = false, "a call of the dispatching helper passes a handler index, an interest flag and a removal operation that do not belong to one direction: the handler of one direction runs for an event of the other, or its interest is not the one removed"
+		}
+	}
+	c.check(good, fn, "dispatch by parameter", in.Pos(), "guarded by kernel mask & freshly read interest & flag, interest removed first, consistent direction at every call", why)
 }
